@@ -1279,6 +1279,13 @@ pub fn array_splice(
 
     drop(arr_ref);
     let guard = interp.heap.create_guard();
+    // The removed elements have left the array, which was what kept them reachable:
+    // root them until the result array holds them (allocating it may collect)
+    for value in &removed {
+        if let JsValue::Object(obj) = value {
+            guard.guard(obj.clone());
+        }
+    }
     let arr = interp.create_array_from(&guard, removed);
     Ok(Guarded::with_guard(JsValue::Object(arr), guard))
 }
